@@ -862,6 +862,24 @@ theorem finish_multi_ok_no_fault (m : Multi) (mr : MultiResp) (hv : Validated m 
   rw [isFault_map]
   exact multiReturn_no_fault m mr hv hq
 
+theorem finishOk_single_no_fault (rpc : Rpc) (msg : Msg) (h : isMulti rpc = false) :
+    (finishOk rpc msg).isFault = false := by
+  cases rpc with
+  | multi m => cases h
+  | get => rfl
+  | mutate => rfl
+  | scan => rfl
+  | other => rfl
+
+theorem finishOk_multi_eq (m : Multi) (mr : MultiResp) :
+    finishOk (.multi m) (.multi mr)
+      = (multiReturn m (some mr) none).map (fun ds => ⟨ds, serverErrorIn mr⟩) := rfl
+
+theorem finishOk_multi_no_fault (m : Multi) (mr : MultiResp) (hv : Validated m mr) (hq : ReqMulti mr) :
+    (finishOk (.multi m) (.multi mr)).isFault = false := by
+  rw [finishOk_multi_eq, isFault_map]
+  exact multiReturn_no_fault m mr hv hq
+
 theorem emptyFor_fits (rpc : Rpc) : MsgFits rpc (emptyFor rpc) := by
   cases rpc <;> trivial
 
@@ -984,7 +1002,7 @@ theorem receiveDecide_no_fault (lookup : Nat → Option Rpc) (ctxDone : Bool)
               split
               · -- DeserializeCellBlocks is not called: a single call, or one without the method
                 rename_i hcond
-                apply finish_single_no_fault
+                apply finishOk_single_no_fault
                 cases rpc with
                 | multi m => simp [isMulti, canDeserialize] at hcond
                 | get => rfl
@@ -1022,7 +1040,7 @@ theorem receiveDecide_no_fault (lookup : Nat → Option Rpc) (ctxDone : Bool)
                           | .err _ => finish rpc msg (some .retryable)
                           | .ok (msg', nread) =>
                             if nread < cb.length then finish rpc msg' (some .retryable)
-                            else finish rpc msg' none).isFault = false := by
+                            else finishOk rpc msg').isFault = false := by
                     intro cb' hnf
                     cases cb' with
                     | fault w => cases hnf
@@ -1045,11 +1063,11 @@ theorem receiveDecide_no_fault (lookup : Nat → Option Rpc) (ctxDone : Bool)
                             obtain ⟨mr, hmr, hv, hq⟩ := hmulti m rfl
                             dsimp only at hmr
                             subst hmr
-                            exact finish_multi_ok_no_fault m mr hv hq
-                          | get => exact finish_single_no_fault _ _ _ rfl
-                          | mutate => exact finish_single_no_fault _ _ _ rfl
-                          | scan => exact finish_single_no_fault _ _ _ rfl
-                          | other => exact finish_single_no_fault _ _ _ rfl
+                            exact finishOk_multi_no_fault m mr hv hq
+                          | get => exact finishOk_single_no_fault _ _ rfl
+                          | mutate => exact finishOk_single_no_fault _ _ rfl
+                          | scan => exact finishOk_single_no_fault _ _ rfl
+                          | other => exact finishOk_single_no_fault _ _ rfl
                   apply hcb
                   cases decompress with
                   | none => rfl
@@ -1075,6 +1093,20 @@ theorem receiveDecide_multi_counts (lookup : Nat → Option Rpc) (decompress : O
     | mutate _ => cases hds
     | scan _ => cases hds
     | other => cases hds
+  have keyOk : ∀ msg, finishOk (.multi m) msg = .ok v →
+      ∀ j, (v.deliveries.map (·.1)).count j = if liveAt m.calls j = true then 1 else 0 := by
+    intro msg hf
+    cases msg with
+    | multi mr =>
+      rw [finishOk_multi_eq] at hf
+      obtain ⟨ds, hds, hv⟩ := map_eq_ok hf
+      subst hv
+      exact multiReturn_counts m _ _ ds hds
+    | nil => cases hf
+    | get _ => cases hf
+    | mutate _ => cases hf
+    | scan _ => cases hf
+    | other => cases hf
   unfold receiveDecide at h
   dsimp only at h
   rw [hid] at h
@@ -1085,7 +1117,196 @@ theorem receiveDecide_multi_counts (lookup : Nat → Option Rpc) (decompress : O
   repeat' split at h
   all_goals first
     | exact key _ _ h
+    | exact keyOk _ h
     | cases h
+
+/-! ### a server-class exception inside a multi response -/
+
+/-- `DeserializeCellBlocks` fills in cells; it leaves every exception where it is. -/
+theorem desRoes_exc (m : Multi) (b : Bytes) (roes : List ResultOrException) (st : DState)
+    {rs : List ResultOrException} {st' : DState} (h : desRoes m b roes st = .ok (rs, st')) :
+    rs.map (·.exception) = roes.map (·.exception) := by
+  induction roes generalizing st rs st' with
+  | nil => unfold desRoes at h; cases h; rfl
+  | cons roe rest ih =>
+    unfold desRoes at h
+    dsimp only at h
+    split at h
+    · cases h
+    split at h
+    · cases h
+    split at h
+    · cases h
+    split at h
+    · cases h
+    split at h
+    · cases h
+    · cases h
+    · split at h
+      · cases h
+      split at h
+      · split at h
+        · rename_i rs' st2 hrec
+          cases h
+          simp [ih _ hrec]
+        · cases h
+        · cases h
+      · rename_i hexc
+        split at h
+        · cases h
+        · cases h
+        · cases h
+        · split at h
+          · cases h
+          split at h
+          · split at h
+            · rename_i rs' st2 hrec
+              cases h
+              simp [ih _ hrec]
+            · cases h
+            · cases h
+          · cases h
+          · cases h
+
+theorem any_exc_congr {rs roes : List ResultOrException}
+    (h : rs.map (·.exception) = roes.map (·.exception)) :
+    rs.any (fun roe => excIsServer roe.exception) = roes.any (fun roe => excIsServer roe.exception) := by
+  have := congrArg (fun l => l.any excIsServer) h
+  simpa [List.any_map, Function.comp_def] using this
+
+/-- The test `serverErrorIn` applies to one region result. -/
+def rarServer (rar : RegionActionResult) : Bool :=
+  excIsServer rar.exception || rar.roes.any (fun roe => excIsServer roe.exception)
+
+theorem desRars_server (m : Multi) (b : Bytes) (rars : List RegionActionResult) (st : DState)
+    {rs : List RegionActionResult} {st' : DState} (h : desRars m b rars st = .ok (rs, st')) :
+    rs.any rarServer = rars.any rarServer := by
+  induction rars generalizing st rs st' with
+  | nil => unfold desRars at h; cases h; rfl
+  | cons rar rest ih =>
+    unfold desRars at h
+    split at h
+    · split at h
+      · cases h
+      split at h
+      · rename_i rs' st2 hrec
+        cases h
+        simp [ih _ hrec]
+      · cases h
+      · cases h
+    · split at h
+      · rename_i roes st1 hroes
+        split at h
+        · rename_i rs' st2 hrec
+          cases h
+          simp [ih _ hrec, rarServer, any_exc_congr (desRoes_exc m b _ _ hroes)]
+        · cases h
+        · cases h
+      · cases h
+      · cases h
+
+/-- What `serverErrorIn` finds in the response after `DeserializeCellBlocks` is what the wire
+message held. -/
+theorem multiDeserialize_serverErrorIn {m : Multi} {mr mr' : MultiResp} {b : Bytes} {n : Nat}
+    (h : multiDeserialize m mr b = .ok (mr', n)) : serverErrorIn mr' = serverErrorIn mr := by
+  unfold multiDeserialize at h
+  split at h
+  · rename_i rars st hd
+    cases h
+    exact desRars_server m b mr.rars _ hd
+  · cases h
+  · cases h
+
+/-- The accepted path of `receive` for a multi, spelled out: no header exception, a response that
+decodes, a `cell_block_meta` length that fits, a cellblock `DeserializeCellBlocks` accepts and reads
+completely.  Every call gets what `returnResults(response, nil)` gives it, and `receive` returns a
+`ServerError` exactly if the response holds a server-class exception. -/
+theorem receiveDecide_multi_accepted (lookup : Nat → Option Rpc) (f : Frame) (id rl : Nat) (m : Multi)
+    (mr mr' : MultiResp) (n : Nat) (hwf : f.WF)
+    (hid : f.header.callId = some id) (hl : lookup id = some (.multi m))
+    (hexc : f.header.exception = none) (hrl : f.respLen = some rl)
+    (hdec : f.decoded.multi = some mr)
+    (hcl : cellsLenOf f.header ≤ f.body.length - f.headerLen - rl)
+    (hdes : multiDeserialize m mr (f.body.drop (f.body.length - cellsLenOf f.header)) = .ok (mr', n))
+    (hn : cellsLenOf f.header ≤ n) :
+    receiveDecide lookup false none f
+      = (multiReturn m (some mr') none).map (fun ds => ⟨ds, serverErrorIn mr⟩) := by
+  obtain ⟨hsize, hlens⟩ := hwf
+  rw [hrl] at hlens
+  simp only [Option.getD_some] at hlens
+  have t64 : two32 < two64 := by decide
+  have h1 : subU64 f.body.length f.headerLen = f.body.length - f.headerLen :=
+    subU64_of_le (by omega) (by omega)
+  have hrest : subU64 (subU64 f.body.length f.headerLen) rl = f.body.length - f.headerLen - rl := by
+    rw [h1, subU64_of_le (by omega) (by omega)]
+  have hle : cellsLenOf f.header ≤ f.body.length := by omega
+  have hsub : subU32 f.body.length (cellsLenOf f.header) = f.body.length - cellsLenOf f.header :=
+    subU32_of_le hsize hle
+  have hse := multiDeserialize_serverErrorIn hdes
+  unfold receiveDecide
+  simp only [hid, hl, hexc, hrl, decodeFor, hdec, Option.map_some, isMulti, canDeserialize,
+    Bool.or_true, Bool.and_true, Bool.not_true, Bool.false_eq_true, if_false, hrest, hsub]
+  rw [if_neg (by omega), if_neg (by omega), if_neg (by omega)]
+  simp only [deserializeFor, hdes, Outcome.map]
+  rw [if_neg (by simp only [List.length_drop]; omega), finishOk_multi_eq, hse]
+  cases multiReturn m (some mr') none <;> rfl
+
+/-- `receive` returns a `ServerError` for the response to a multi only for a server-class exception:
+in the header (then every call gets that error), or inside the accepted response (then every call
+has got what `returnResults(response, nil)` gives it). -/
+theorem receiveDecide_multi_connFail_cause (lookup : Nat → Option Rpc)
+    (decompress : Option (Bytes → Outcome Bytes)) (f : Frame) (id : Nat) (m : Multi) (v : Verdict)
+    (hid : f.header.callId = some id) (hl : lookup id = some (.multi m))
+    (h : receiveDecide lookup false decompress f = .ok v) (hcf : v.connFail = true) :
+    (∃ e, f.header.exception = some e ∧
+        exceptionToError (e.className.getD []) (e.stackTrace.getD []) = .connErr ∧
+        multiReturn m none (some .connErr) = .ok v.deliveries) ∨
+    (f.header.exception = none ∧
+      ∃ mr, serverErrorIn mr = true ∧ multiReturn m (some mr) none = .ok v.deliveries) := by
+  have key : ∀ msg, finish (.multi m) msg (some .retryable) = .ok v → False := by
+    intro msg hf
+    unfold finish at hf
+    obtain ⟨ds, _, hv⟩ := map_eq_ok hf
+    subst hv
+    cases hcf
+  have keyOk : ∀ msg, finishOk (.multi m) msg = .ok v →
+      ∃ mr, serverErrorIn mr = true ∧ multiReturn m (some mr) none = .ok v.deliveries := by
+    intro msg hf
+    cases msg with
+    | multi mr =>
+      rw [finishOk_multi_eq] at hf
+      obtain ⟨ds, hds, hv⟩ := map_eq_ok hf
+      subst hv
+      exact ⟨mr, hcf, hds⟩
+    | nil => cases hf
+    | get _ => cases hf
+    | mutate _ => cases hf
+    | scan _ => cases hf
+    | other => cases hf
+  unfold receiveDecide at h
+  dsimp only at h
+  rw [hid] at h
+  dsimp only at h
+  rw [hl] at h
+  dsimp only at h
+  simp only [Bool.false_eq_true, if_false] at h
+  split at h
+  · rename_i e he
+    left
+    unfold finish at h
+    obtain ⟨ds, hds, hv⟩ := map_eq_ok h
+    subst hv
+    have hc : exceptionToError (e.className.getD []) (e.stackTrace.getD []) = .connErr := by
+      simpa using hcf
+    rw [hc] at hds
+    exact ⟨e, he, hc, hds⟩
+  · right
+    refine ⟨by assumption, ?_⟩
+    repeat' split at h
+    all_goals first
+      | exact (key _ h).elim
+      | exact keyOk _ h
+      | cases h
 
 /-! ### scanner -/
 
